@@ -966,8 +966,8 @@ func vC08GenMsgs(r *vRng, small bool, forWrite bool) (msgs []vSx, wireLen int) {
 		if forWrite && r.chance(2, 5) {
 			op, set := vC08GenPkt(r, r.intn(11), small)
 			msgs = append(msgs, op)
-			if set > 0 {
-				chunk = set
+			if set > 0 && set <= 65536 {
+				chunk = set // only steers the payload sizes picked below
 			}
 			continue
 		}
